@@ -14,6 +14,7 @@ open Kv Drv
 
 structure St where
   redis : Bool
+  down : Bool := false
   im : Inmem
   rd : Redis
   sp : Spec
@@ -90,11 +91,13 @@ def comp : Component where
     | b :: _ => some { redis := b == "redis", im := Inmem.new, rd := Redis.new, sp := Spec.new, seenI := [], seenS := [] }
     | _ => none
   step := fun st ws => match ws with
+    | _ :: "down" :: _ => some ({ st with down := true }, "ok")     -- the server is gone: every later call fails
     | _ :: "subms" :: _ => some (st, "ok")     -- sub-millisecond expiry scenario: Go-side monitor only (the model's clock ticks in ms)
     | now :: op :: rest =>
       if op.startsWith "!" then
         -- a call made with a context that was already done and REFUSED for that reason: nothing changes
         some (st, "ctxErr")
+      else if st.down then some (st, "otherErr")
       else stepPlain st now (op :: rest)
     | _ => none
 
